@@ -1812,3 +1812,12 @@ Proof.
   intros [[r [Hr [I V]]] M]. split; [apply in_roster_spec; eauto|].
   rewrite owned_is_owned_c. apply owned_c_spec. exists r, e. auto.
 Qed.
+
+(* C18: the two halves put together - a task owned by a live environment of the current life is
+   never sent KILL while a reconciliation answer is processed, in any state at all *)
+Lemma owned_never_killed_by_answer w t e :
+  Own w t e -> ~ In (CKill t) (snd (step w OAnswer)).
+Proof.
+  intros Ho Hk. destruct (own_in_roster _ _ _ Ho) as [Hr _].
+  destruct (answer_kills_unrostered _ _ Hk) as [Hn _]. congruence.
+Qed.
